@@ -22,7 +22,7 @@ func init() {
 			}
 			var out []Case
 			for i := 0; i < n; i++ {
-				cfg := p1Cfg{MaxStmts: 5 + i*8/n, Keys: p1Keys, Recover: true}
+				cfg := p1Cfg{MaxStmts: 5 + i*8/n, Keys: p1Keys, Recover: true, Presenters: i%2 == 0}
 				p := genProg(r, cfg)
 				// make Recover frequent: append a few
 				nd, ne := 0, 0
